@@ -44,3 +44,46 @@ Proof.
   destruct (usart_send_exact (concat (map (fun p => map enc_of (frag_spec p)) ps)) ans Hn) as [rest Hr]; [rewrite Hwire; exact Hl|].
   exists rest. rewrite Hr, Hwire. reflexivity.
 Qed.
+
+(* ---- serial port and CAN ---- *)
+Definition enc_packets (ps: list packet) : out (list (list N)) lerr :=
+  match mapM (fun p => match to_frames p with
+                       | Val fs => (match mapM to_usart fs with Val es => Val es | Fail _ => Panic | Panic => Panic | Hang => Hang end : out (list (list N)) lerr)
+                       | Fail _ => Panic | Panic => Panic | Hang => Hang end) ps with
+  | Val encss => Val (concat encss) | Fail e => Fail e | Panic => Panic | Hang => Hang
+  end.
+Lemma enc_packets_spec ps : Forall wfp ps -> Forall small ps -> enc_packets ps = Val (concat (map (fun p => map enc_of (frag_spec p)) ps)).
+Proof.
+  intros Hw Hs. unfold enc_packets.
+  rewrite (mapM_ext_val _ (fun p => map enc_of (frag_spec p))); [reflexivity|].
+  intros p Hp. rewrite Forall_forall in Hw, Hs. destruct (sender_wire p (Hw p Hp) (Hs p Hp)) as [H1 [H2 _]]. rewrite H1, H2. reflexivity.
+Qed.
+
+(* the serial-port sender over a device that accepts writes in any positive chunk sizes and whose flush succeeds *)
+Theorem sender_serial ps ans : Forall wfp ps -> Forall small ps -> no_pbad ans ->
+  exists encs, enc_packets ps = Val encs /\ serial_send encs ans true = (wire_packets ps, Val tt).
+Proof.
+  intros Hw Hs Hn. eexists. split; [apply enc_packets_spec; assumption|].
+  pose proof (serial_send_spec (concat (map (fun p => map enc_of (frag_spec p)) ps)) ans true) as H.
+  destruct (serial_send _ ans true) as [w r]. destruct H as [_ [_ H3]]. destruct (H3 Hn) as [-> ->].
+  unfold wire. rewrite wire_concat by assumption. reflexivity.
+Qed.
+
+(* the CAN sender when no transmit reports a displaced frame and every frame is eventually accepted *)
+Lemma can_expect_all cfs : forall outs, (length cfs <= length outs)%nat -> Forall (fun t => t = TSent) (firstn (length cfs) outs) ->
+  can_expect cfs outs = (cfs, Val tt).
+Proof.
+  induction cfs as [|c t IH]; intros outs Hl Ha; [reflexivity|]. destruct outs as [|o os]; [cbn in Hl; lia|].
+  cbn [length firstn] in *. apply Forall_cons_iff in Ha. destruct Ha as [-> Ha]. cbn [can_expect]. rewrite IH by (try assumption; lia). reflexivity.
+Qed.
+Theorem sender_can ps ans : Forall wfp ps -> Forall small ps ->
+  let cfs := concat (map (fun p => map can_of (frag_spec p)) ps) in
+  (length cfs <= length (outcomes ans))%nat -> Forall (fun t => t = TSent) (firstn (length cfs) (outcomes ans)) ->
+  mapM (fun p => match to_frames p with Val fs => (match mapM to_bxcan fs with Val cs => Val cs | Fail _ => Panic | Panic => Panic | Hang => Hang end : out (list canframe) lerr) | Fail _ => Panic | Panic => Panic | Hang => Hang end) ps
+    = Val (map (fun p => map can_of (frag_spec p)) ps) /\
+  can_send cfs ans = (cfs, Val tt).
+Proof.
+  intros Hw Hs cfs Hl Ha. split.
+  - apply mapM_ext_val. intros p Hp. rewrite Forall_forall in Hw, Hs. destruct (sender_wire p (Hw p Hp) (Hs p Hp)) as [H1 [_ [H3 _]]]. rewrite H1, H3. reflexivity.
+  - rewrite can_send_spec. apply can_expect_all; assumption.
+Qed.
